@@ -216,6 +216,8 @@ SIB_SETS = [
     ["*", "", "Wildcard", "Blank", "Undefined", "-"],
     ["été", "Été", "ete"],
     ["a.b", "a/b", "a:b", "a+b", "a b"],
+    ["rate", "100%", "% done", "a%sb", "%d", "50%%"],          # tag text that would be a printf format
+    ["x%vy", "%", "q%5.2f", "%[1]s", "plain"],
 ]
 
 
